@@ -261,6 +261,12 @@ def _emits_in(cls, node, depth=0, nested=None):
         if isinstance(n, ast.Name) and nested and n.id in nested and depth < 3:
             if _emits_in(cls, nested[n.id], depth + 1):
                 return True
+        if isinstance(n, ast.Attribute) and isinstance(n.value, ast.Name) and n.value.id == 'self' and depth < 3 \
+                and cls is not None and n.attr not in ('start', 'stop', 'loop'):
+            ref = cls.find(n.attr)      # a method handed over as a callback (loop.add_callback(self._checkpoint_emit, part))
+            if ref is not None and ref.cls is not None and ref.cls.module.name.startswith('streamz.sources') \
+                    and _emits_in(cls, ref.node, depth + 1):
+                return True
         if isinstance(n, ast.Call) and isinstance(n.func, ast.Attribute):
             if n.func.attr in ('_emit', 'emit'):
                 return True
